@@ -2,7 +2,8 @@
    data.  Statements only: each theorem is closed by [exact], pinned by [Check]
    and followed by [Print Assumptions]. *)
 From Coq Require Import List NArith Bool.
-From RB Require Import Base.Val Base.Bytes Model.Bmp Model.Mrt Spec.BmpRead Spec.MrtRead Proofs.Bmp Proofs.Mrt.
+From RB Require Import Base.Val Base.Bytes Model.Bmp Model.Mrt Model.MonConv Spec.BmpRead Spec.MrtRead
+     Proofs.Bmp Proofs.Mrt Proofs.MonConv.
 Import ListNotations.
 Open Scope N_scope.
 
@@ -180,4 +181,112 @@ Check td_entry_count_refuted :
   exists es : list rib_entry, Forall (wf_entry false) es /\
     read_mrt (encode_table_dump 0 [] (RibIpv4Unicast 0 [8; 10] es)) = None.
 Print Assumptions td_entry_count_refuted.
+
+(* (8) daemon: the UPDATE built from an Adj-RIB-In change (for BMP and for MRT) is an
+   announcement exactly when the change has attributes and carries its family,
+   NLRI, next hop and attributes unchanged. *)
+Theorem conv_update_faithful :
+  forall c : change,
+    match c_attrs c with
+    | Some a => adj_rib_in_to_update c = UReach (c_family c) (c_nlris c) (c_nexthop c) a
+    | None => adj_rib_in_to_update c = UUnreach (c_family c) (c_nlris c)
+    end.
+Proof. exact C19_conv_update_faithful. Qed.
+Check conv_update_faithful :
+  forall c : change,
+    match c_attrs c with
+    | Some a => adj_rib_in_to_update c = UReach (c_family c) (c_nlris c) (c_nexthop c) a
+    | None => adj_rib_in_to_update c = UUnreach (c_family c) (c_nlris c)
+    end.
+Print Assumptions conv_update_faithful.
+
+(* (9) daemon: adj_rib_in_to_mrt builds a header that meets the hypotheses of (5)
+   (4-octet AS form, both session addresses) and states the change's add-path. *)
+Theorem conv_mrt_header_wf :
+  forall c : change,
+    wf_source (c_source c) -> same_family (s_raddr (c_source c)) (s_laddr (c_source c)) ->
+    let '(h, u, ap) := adj_rib_in_to_mrt c in
+    wf_mph h /\ u = adj_rib_in_to_update c /\ ap = c_addpath c
+    /\ m_raddr h = s_raddr (c_source c) /\ m_laddr h = s_laddr (c_source c).
+Proof. exact C19_conv_mrt_header_wf. Qed.
+Check conv_mrt_header_wf :
+  forall c : change,
+    wf_source (c_source c) -> same_family (s_raddr (c_source c)) (s_laddr (c_source c)) ->
+    let '(h, u, ap) := adj_rib_in_to_mrt c in
+    wf_mph h /\ u = adj_rib_in_to_update c /\ ap = c_addpath c
+    /\ m_raddr h = s_raddr (c_source c) /\ m_laddr h = s_laddr (c_source c).
+Print Assumptions conv_mrt_header_wf.
+
+(* (10) daemon: loc_rib_to_bmp builds a well-typed RFC 9069 header (peer type 3, IPv4
+   zero address, no V bit: hypotheses of (2) and (4)) around the single prefix. *)
+Theorem loc_rib_header_wf :
+  forall (family : N) (net : val) (attr : option val) (nexthop : val) (ts : N) (rid : bytes) (asn : N),
+    ts < 2 ^ 32 -> asn < 2 ^ 32 -> length rid = 4%nat ->
+    let m := loc_rib_to_bmp family net attr nexthop ts rid asn in
+    wf_pph (rm_hdr m) /\ flags_no_v (rm_hdr m) /\ p_type (rm_hdr m) = 3
+    /\ is_v6 (p_addr (rm_hdr m)) = false /\ rm_addpath m = false
+    /\ rm_update m = match attr with
+                     | Some a => UReach family [VL [VN 0; net]] nexthop a
+                     | None => UUnreach family [VL [VN 0; net]]
+                     end.
+Proof. exact C19_loc_rib_header_wf. Qed.
+Check loc_rib_header_wf :
+  forall (family : N) (net : val) (attr : option val) (nexthop : val) (ts : N) (rid : bytes) (asn : N),
+    ts < 2 ^ 32 -> asn < 2 ^ 32 -> length rid = 4%nat ->
+    let m := loc_rib_to_bmp family net attr nexthop ts rid asn in
+    wf_pph (rm_hdr m) /\ flags_no_v (rm_hdr m) /\ p_type (rm_hdr m) = 3
+    /\ is_v6 (p_addr (rm_hdr m)) = false /\ rm_addpath m = false
+    /\ rm_update m = match attr with
+                     | Some a => UReach family [VL [VN 0; net]] nexthop a
+                     | None => UUnreach family [VL [VN 0; net]]
+                     end.
+Print Assumptions loc_rib_header_wf.
+
+(* (11) daemon: every message flush_peer_snapshot builds has a well-typed header
+   without the V bit (hypotheses of (2) and (4)), for any snapshot contents. *)
+Theorem flush_headers_wf :
+  forall (s : snapshot) (addr : ip) (h : pph) (flags : N) (s' : snapshot) (ms : list rm),
+    flush_peer_snapshot s addr h flags = (s', ms) ->
+    flags < 128 -> wf_pph h -> flags_no_v h ->
+    (forall a m k c, In (a, m) s -> In (k, c) m -> wf_source (c_source c) /\ c_ts c < 2 ^ 32) ->
+    Forall (fun m => wf_pph (rm_hdr m) /\ flags_no_v (rm_hdr m)) ms.
+Proof. exact C19_flush_headers_wf. Qed.
+Check flush_headers_wf :
+  forall (s : snapshot) (addr : ip) (h : pph) (flags : N) (s' : snapshot) (ms : list rm),
+    flush_peer_snapshot s addr h flags = (s', ms) ->
+    flags < 128 -> wf_pph h -> flags_no_v h ->
+    (forall a m k c, In (a, m) s -> In (k, c) m -> wf_source (c_source c) /\ c_ts c < 2 ^ 32) ->
+    Forall (fun m => wf_pph (rm_hdr m) /\ flags_no_v (rm_hdr m)) ms.
+Print Assumptions flush_headers_wf.
+
+(* (12) daemon: for ALL Loc-RIB contents with at most 65536 distinct peers, dump_table
+   writes the peer index table first; every RIB record has one entry per path of
+   its prefix (none dropped, never zero), and each entry's peer index designates
+   the row of that table holding the address of the peer the path came from. *)
+Theorem dump_peer_indexes_consistent :
+  forall (rid : bytes) (ts : N) (v4 v6 : list dchange),
+    let peers := snd (build_index (v4 ++ v6)) in
+    N.of_nat (length peers) <= 65536 ->
+    hd_error (dump_table rid ts v4 v6) = Some (ts, PeerIndexTable rid peers) /\
+    forall t r es, In (t, r) (tl (dump_table rid ts v4 v6)) -> rec_entries r = Some es ->
+      es <> [] /\
+      exists prefix paths, In (prefix, paths) (v4 ++ v6)
+        /\ Forall2 (fun (p : dpath) (e : rib_entry) =>
+                      re_orig e = ts /\ re_nh e = d_nh p /\ re_attrs e = d_attrs p /\
+                      exists row, nth_error peers (N.to_nat (re_idx e)) = Some row
+                                  /\ pe_addr row = d_addr p) paths es.
+Proof. exact C19_dump_peer_indexes_consistent. Qed.
+Check dump_peer_indexes_consistent :
+  forall (rid : bytes) (ts : N) (v4 v6 : list dchange),
+    let peers := snd (build_index (v4 ++ v6)) in
+    N.of_nat (length peers) <= 65536 ->
+    hd_error (dump_table rid ts v4 v6) = Some (ts, PeerIndexTable rid peers) /\
+    forall t r es, In (t, r) (tl (dump_table rid ts v4 v6)) -> rec_entries r = Some es ->
+      es <> [] /\
+      exists prefix paths, In (prefix, paths) (v4 ++ v6)
+        /\ Forall2 (fun (p : dpath) (e : rib_entry) =>
+                      re_orig e = ts /\ re_nh e = d_nh p /\ re_attrs e = d_attrs p /\
+                      exists row, nth_error peers (N.to_nat (re_idx e)) = Some row
+                                  /\ pe_addr row = d_addr p) paths es.
+Print Assumptions dump_peer_indexes_consistent.
 
